@@ -431,3 +431,48 @@ def flag_switched_by_the_document(flag_first: bool, turn_on: bool, bad_item: int
         hold("returns", raised is None or (bad_item != 0 and isinstance(raised, ValidationError)),
              lambda: "document for a disabled feature rejected: %r" % (raised,))
     return True
+
+
+# --------------------------------------------------------------------------- required secrets
+@obligation(prop="C11", sites=("raises", "returns"), stubs=("FakeFS",), budget={"quick": 60, "thorough": 120},
+            encodes=["cincoconfig.core.Field.validate", "cincoconfig.core.Schema._validate"],
+            what="a required SecureField (text, like a string field) at the root or nested, loaded with nothing / "
+                 "null / the empty text / a text, with or without a default: the load returns iff the field ends up "
+                 "with a non-empty value; a returned configuration can be saved and loaded again")
+def required_secret(nested: bool, present: int, has_default: bool) -> bool:
+    """
+    pre: 0 <= present <= 3
+    post: _
+    """
+    from cincoconfig import SecureField
+    from vf.hlib.stubs import FakeFS
+    fs = FakeFS(files={"/k/c11.key": bytes(range(1, 33))}, dirs=["/k"])
+    with fs.patched():
+        schema = Schema()
+        owner = schema.auth if nested else schema
+        owner.pw = SecureField(method="xor", required=True, default="dflt" if has_default else None)
+        owner.pad = IntField(default=0)
+        leaf = {}
+        if present == 1:
+            leaf["pw"] = None
+        elif present == 2:
+            leaf["pw"] = ""
+        elif present == 3:
+            leaf["pw"] = "s3cret"
+        tree = {"auth": leaf} if nested else leaf
+        cfg = schema(key_filename="/k/c11.key")
+        raised = None
+        try:
+            cfg.load_tree(tree)
+        except Exception as exc:  # noqa: BLE001
+            raised = exc
+        final = "s3cret" if present == 3 else ("" if present == 2 else (None if present == 1 else ("dflt" if has_default else None)))
+        if final in (None, ""):
+            hold("raises", isinstance(raised, ValidationError),
+                 lambda: "the load returned (%r) although the required secret is %r" % (raised, final))
+        else:
+            hold("returns", raised is None, lambda: "valid secret rejected: %r" % (raised,))
+            again = schema(key_filename="/k/c11.key")
+            again.load_tree(cfg.to_tree())
+            hold("returns", (again.auth if nested else again).pw == final, "saved tree does not load back")
+    return True
